@@ -45,6 +45,7 @@ type World struct {
 	ContractFiles       []string
 	mayEffect           map[*ssa.Function]int        // memo: 1 = no, 2 = yes, 3 = in progress
 	inlineOnly          map[*ssa.Function]int        // memo: 1 = no, 2 = yes
+	ifaceNames          map[string]map[string]bool   // package path -> method names of the interface types it mentions
 	Renames             map[string]map[string]string // top-level function key -> (name used in the contracts -> current name)
 }
 
@@ -466,8 +467,15 @@ func (w *World) inlinable(f *ssa.Function) bool {
 // function value, never a method that can be called through an interface): every execution of f is then covered where
 // it is inlined, so it is not verified on its own against an empty precondition.
 func (w *World) InlineOnly(f *ssa.Function) bool {
-	if !w.inlinable(f) || f.Signature.Recv() != nil {
+	if !w.inlinable(f) {
 		return false
+	}
+	if f.Signature.Recv() != nil {
+		// a method can also be reached through an interface: only an unexported method whose name no interface type
+		// mentioned in its package declares (and that is never used as a method value) is called statically only
+		if f.Object() == nil || f.Object().Exported() || w.ifaceMethodNames(f)[f.Name()] {
+			return false
+		}
 	}
 	if w.inlineOnly == nil {
 		w.inlineOnly = map[*ssa.Function]int{}
@@ -499,6 +507,14 @@ func (w *World) InlineOnly(f *ssa.Function) bool {
 						}
 						if fn, ok := (*op).(*ssa.Function); ok && *op != calleeV {
 							valued[fn] = true
+							if fn.Synthetic != "" {
+								// a bound-method or thunk wrapper: the method it wraps is used as a value
+								for _, g := range w.Funcs {
+									if g.Signature.Recv() != nil && strings.HasPrefix(fn.Name(), g.Name()+"$") {
+										valued[g] = true
+									}
+								}
+							}
 						}
 					}
 				}
@@ -522,6 +538,46 @@ func (w *World) InlineOnly(f *ssa.Function) bool {
 		}
 	}
 	return w.inlineOnly[f] == 2
+}
+
+// ifaceMethodNames: the method names of every interface type that occurs in the package of f (declared, anonymous,
+// embedded or imported-and-mentioned).
+func (w *World) ifaceMethodNames(f *ssa.Function) map[string]bool {
+	if w.ifaceNames == nil {
+		w.ifaceNames = map[string]map[string]bool{}
+	}
+	pkg := calleePkg(f)
+	if pkg == nil {
+		return map[string]bool{f.Name(): true}
+	}
+	if m, ok := w.ifaceNames[pkg.Path()]; ok {
+		return m
+	}
+	m := map[string]bool{}
+	add := func(t types.Type) {
+		if t == nil {
+			return
+		}
+		if it, ok := t.Underlying().(*types.Interface); ok {
+			for i := 0; i < it.NumMethods(); i++ {
+				m[it.Method(i).Name()] = true
+			}
+		}
+	}
+	if p := w.PkgByPath[pkg.Path()]; p != nil && p.TypesInfo != nil {
+		for _, tv := range p.TypesInfo.Types {
+			add(tv.Type)
+		}
+		for _, o := range p.TypesInfo.Defs {
+			if o != nil {
+				add(o.Type())
+			}
+		}
+	} else {
+		m[f.Name()] = true
+	}
+	w.ifaceNames[pkg.Path()] = m
+	return m
 }
 
 // isEffectKey reports whether key names an operation declared `effect` (the key under which its calls are logged).
